@@ -355,6 +355,8 @@ struct Table {
     stake_proportional: Vec<String>,
     fait_accompli: Vec<String>,
     decaying: Vec<String>,
+    fa1_exact: Vec<String>,
+    partition_fallback: Vec<String>,
     all: Vec<String>,
 }
 
@@ -371,6 +373,8 @@ fn replay_cases(path: &str, seeds_per_case: u64, infeasible_every: u64) -> anyho
         stake_proportional: strs(&t["stakeProportional"]),
         fait_accompli: strs(&t["faitAccompli"]),
         decaying: strs(&t["decaying"]),
+        fa1_exact: strs(&t["fa1Exact"]),
+        partition_fallback: strs(&t["partitionFallback"]),
         all: strs(&t["all"]),
     };
     let cases = load_tagged(path, "CASE")?;
@@ -382,9 +386,10 @@ fn replay_cases(path: &str, seeds_per_case: u64, infeasible_every: u64) -> anyho
         let n = stakes.len();
         let min: Vec<u64> = case["min"].as_array().unwrap().iter().map(|x| x.as_u64().unwrap()).collect();
         let bnd: Vec<bool> = case["bnd"].as_array().unwrap().iter().map(|x| x.as_bool().unwrap()).collect();
+        let pcap: Vec<u64> = case["pcap"].as_array().unwrap().iter().map(|x| x.as_u64().unwrap()).collect();
         let zero: Vec<bool> = case["zero"].as_array().unwrap().iter().map(|x| x.as_bool().unwrap()).collect();
         let must_construct = case["mustConstruct"].as_bool().unwrap();
-        anyhow::ensure!(case["n"].as_u64() == Some(n as u64) && min.len() == n && bnd.len() == n && zero.len() == n,
+        anyhow::ensure!(case["n"].as_u64() == Some(n as u64) && min.len() == n && bnd.len() == n && zero.len() == n && pcap.len() == n,
             "malformed CASE");
         rep.cases += 1;
         if min.iter().any(|m| *m > 0) {
@@ -395,6 +400,10 @@ fn replay_cases(path: &str, seeds_per_case: u64, infeasible_every: u64) -> anyho
         }
         if zero.iter().any(|z| *z) {
             rep.count("case.zero", 1);
+        }
+        // a validator without residual (owed seats, exact multiple) next to one with a residual
+        if min.iter().zip(&bnd).any(|(m, b)| *m > 0 && *b) && bnd.iter().any(|b| !*b) {
+            rep.count("case.exact_next_to_residual", 1);
         }
         let decays: Vec<(u64, u64)> = case["decay"].as_array().unwrap().iter()
             .map(|d| (d["num"].as_u64().unwrap(), d["den"].as_u64().unwrap())).collect();
@@ -469,6 +478,16 @@ fn replay_cases(path: &str, seeds_per_case: u64, infeasible_every: u64) -> anyho
                                 failed.push(if bnd[v] { "FaSeatsBoundary" } else { "FaSeatsInterior" });
                             }
                         }
+                    }
+                    if table.fa1_exact.iter().any(|x| x == s.name)
+                        && (0..n).any(|v| bnd[v] && seats[v] != min[v])
+                    {
+                        failed.push("FaExactWhenNoResidual");
+                    }
+                    if table.partition_fallback.iter().any(|x| x == s.name)
+                        && (0..n).any(|v| seats[v] > pcap[v])
+                    {
+                        failed.push("FaPartitionCap");
                     }
                     if seats.iter().any(|x| *x > cap) {
                         failed.push("DecayCap");
@@ -553,6 +572,13 @@ fn gen_stakes(kind: &str, n: usize, gseed: u64, param: u64) -> Vec<u64> {
             st[0] = param / 5 * 4;
             st
         }
+        // validator 0 holds exactly half of the stake (n-1 of 2(n-1)), everybody else 1: with
+        // k = n-1 validator 0 is owed exactly k/2 seats and has no residual, the others have one
+        "exactheavy" => {
+            let mut st = vec![1u64; n];
+            st[0] = (n as u64 - 1).max(1);
+            st
+        }
         // validator 0 holds `param`, everybody else a single-digit stake
         "whale" => {
             let mut st: Vec<u64> = (0..n).map(|_| rng.random_range(1..=9u64)).collect();
@@ -627,6 +653,10 @@ fn plan(tier: &str, seed: u64) -> Vec<(Dist, Vec<usize>)> {
             add("zeros", n, g, 0, pick(n));
             // without-replacement decay has to reach the single-digit validators next to a whale
             add("whale", n, g, 200_000_000, vec![n.min(5)]);
+            // one heavy validator on an exact multiple of Total/k next to validators with residuals
+            if n >= 3 && r == 0 {
+                add("exactheavy", n, g, 0, vec![n - 1]);
+            }
         }
     }
     // large validator sets (panics, well-formedness, determinism; floors not evaluated by TLC
